@@ -318,4 +318,66 @@ func runC07(c *Ctx) {
 		}
 	}
 	flush()
+
+	// order / memoisation battery: the decision is a function of (rule set, path) alone, whatever was decided before.  Pairs
+	// of evaluations whose pattern text + path concatenate to the same string but whose answers differ, in both orders,
+	// each pair with patterns of its own (a process-wide cache keyed by anything coarser than the pair shows up here)
+	lit := func(s string) *reNode {
+		var n *reNode
+		for i := 0; i < len(s); i++ {
+			var x *reNode
+			if s[i] == '.' {
+				x = &reNode{op: "dot"}
+			} else {
+				x = &reNode{op: "chr", c: s[i]}
+			}
+			if n == nil {
+				n = x
+			} else {
+				n = &reNode{op: "cat", a: n, b: x}
+			}
+		}
+		return n
+	}
+	nb := 24
+	if c.Thorough() {
+		nb = 200
+	}
+	for i := 0; i < nb; i++ {
+		short, ext := fmt.Sprintf(".k%d", i), fmt.Sprintf(".k%d.s", i) // "^.kN" and "^.kN.s"
+		p2 := fmt.Sprintf("/k%d/s/t", i)                               // matched by the longer pattern
+		p1 := ".s" + p2                                                // "^.kN" + p1 == "^.kN.s" + p2, not matched by the shorter one
+		type ev struct {
+			re, target string
+		}
+		order := []ev{{short, p1}, {ext, p2}}
+		if i%2 == 1 {
+			order = []ev{{ext, p2}, {short, p1}}
+		}
+		kinds := []string{"inc", "exc"}
+		for _, e := range order {
+			n := lit(e.re)
+			txt := "^" + n.text()
+			m := sm{"regex", txt}
+			rules := []rule07{{inc: []sm{m}}}
+			if kinds[(i/2)%2] == "exc" {
+				rules = []rule07{{exc: []sm{m}}}
+			}
+			t0 := triggered07(rules, "")
+			t := triggered07(rules, e.target+"?x=1")
+			c.Sum.Evaluations += 2
+			b0 := "0"
+			if t0 {
+				b0 = "1"
+			}
+			cases = append(cases, gal.Rec("k_rules", galRules(rules), "k_regex", gal.L([]string{gal.Pair(gal.S(txt), gal.Rec("anch_l", gal.B(true), "body", n.gal(), "anch_r", gal.B(false)))}),
+				"k_alpha", gal.S(alpha), "k_len", gal.N(0), "k_bits", gal.Lit(b0), "k_extra", gal.L([]string{gal.Pair(gal.S(e.target+"?x=1"), gal.B(t))})))
+			descr = append(descr, map[string]any{"rules": descRules(rules), "alpha": alpha, "len": 0, "extra": [][2]any{{e.target + "?x=1", t}}, "battery": "order/memoisation", "pair": i})
+			c.Hist("order_battery", fmt.Sprintf("%s first=%v", kinds[(i/2)%2], order[0].re == short))
+		}
+		if len(cases) >= 12 {
+			flush()
+		}
+	}
+	flush()
 }
